@@ -93,10 +93,18 @@ pub fn key_table(u: i64, dmax: i64, advmax: i64, w: &[u32; 8]) -> Vec<OpSpec> {
 }
 
 pub fn key_cases(prop: &'static str, mix: KeyMix) -> BoxedStrategy<Case> {
+    key_cases_never(prop, mix, 0)
+}
+
+/// `never_share` > 0: that many extra parts (of the insert weight, in tenths) of the inserts never expire
+pub fn key_cases_never(prop: &'static str, mix: KeyMix, never_share: u32) -> BoxedStrategy<Case> {
     let m = mix.clone();
     (pick(&m.us), caps(), 0..10u8)
         .prop_flat_map(move |(u, cap, edge)| {
-            let table = key_table(u, m.dmax, m.advmax, &m.w);
+            let mut table = key_table(u, m.dmax, m.advmax, &m.w);
+            if never_share > 0 {
+                table.push(spec(m.w[0] * never_share / 10, K_INS, &[0..=u - 1, 500_000..=500_000]));
+            }
             let fin = m.final_export.clone();
             let m2 = m.clone();
             let exp_strategy: BoxedStrategy<Option<i64>> = match fin {
